@@ -249,7 +249,7 @@ example : ∃ e s1, Quiescent (run (ctx0 [A19]) (.parse A19 none)).2 ∧
     | ok k => simp [rc, Except.map] at h
     | error e' => simp only [rc, Except.map] at h; rw [h]
 
-/-- **F51.**  Without `Quiescent`: in an explicit-compile context a failed `lys_parse` also removes the modules that
+/-- **F131.**  Without `Quiescent`: in an explicit-compile context a failed `lys_parse` also removes the modules that
     earlier, successful calls added since the last `ly_ctx_compile` (they are all in `unres.creating`). -/
 theorem pending_batch_dropped :
     ∃ (s : Ctx) (op : Op) (e : Nat) (s' : Ctx), (s.mods.map (·.key)).Nodup ∧ run s op = (.error e, s') ∧
@@ -259,7 +259,7 @@ theorem pending_batch_dropped :
   ⟨s, op, 7, (run s op).2, by decide +kernel, run_eq_error (e := 6) (by decide +kernel),
     by decide +kernel, by decide +kernel⟩
 
-/-- **F50.**  `latest_revision` is outside `ObsCore` for a reason: a newer revision that fails after it was added to the
+/-- **F130.**  `latest_revision` is outside `ObsCore` for a reason: a newer revision that fails after it was added to the
     context takes LYS_MOD_LATEST_REV away from the previous latest revision for good (`ly_ctx_get_module_latest` = NULL). -/
 theorem latest_flag_not_restored :
     ∃ (s : Ctx) (op : Op) (e : Nat) (s' : Ctx), Quiescent s ∧ run s op = (.error e, s') ∧
@@ -281,7 +281,7 @@ theorem data_stays_usable_fails :
   revert this
   decide +kernel
 
-/-- **F57.**  "Same compiled schema for every module" is false even between two calls of a context without explicit
+/-- **F137.**  "Same compiled schema for every module" is false even between two calls of a context without explicit
     compilation: the successful `lys_parse(mdd)` implements `maa` (augment target of `mbb`, which is implemented for a leafref
     of `mcc`, which is implemented for a leafref of `mdd`) without ever compiling it; the failed `lys_parse(mzz)` — a module
     that does not compile — gives `maa` its compiled module through the recompilation in `lys_unres_glob_revert`. -/
@@ -306,7 +306,7 @@ theorem compiled_schema_not_restored :
 def laterLoad (t : Ctx) : Except Nat Unit × Ctx :=
   run (run { t with repo := t.repo ++ [A20] } (.load (bs "aaa") (some (bs "2020-01-01")) none)).2 (.parse C none)
 
-/-- **F52.**  "A later load of a correct module behaves as if the failed attempt never happened" is false: the failed
+/-- **F132.**  "A later load of a correct module behaves as if the failed attempt never happened" is false: the failed
     call leaves LYS_MOD_IMPORTED_REV on `aaa@2019-01-01`; after `aaa@2020-01-01` has been loaded and implemented, the
     correct module `ccc` loads from the untouched context and is refused (LY_EDENIED) from the one that saw the failed
     attempt — although both show the same modules, flags and features. -/
@@ -318,7 +318,7 @@ theorem later_load_differs :
   ⟨s, op, 7, (run s op).2, Quiescent.ofB (by decide +kernel), run_eq_error (e := 6) (by decide +kernel),
     by decide +kernel, by decide +kernel, by decide +kernel⟩
 
-/-- **F54.**  A *successful* call can leave a half-parsed module behind: looking for a newer revision for a dateless
+/-- **F134.**  A *successful* call can leave a half-parsed module behind: looking for a newer revision for a dateless
     import, `lys_parse_load_from_clb_or_file` ignores the failure of `lys_parse_in`, but the module had already been
     added to the context (and nothing reverts, because the call as a whole succeeds). -/
 theorem nested_failure_leaves_debris :
